@@ -32,6 +32,10 @@ const FAULTS: &[(&str, &str)] = &[
     ("class A<int x> { int v = x; }\ndef d : A;\n", "A;"),                                          // missing template argument (none given)
     ("class A<int x, int y> { int v = x; int w = y; }\ndef d : A<1>;\n", "A<1>"),                  // missing template argument
     ("class A<int x> { int v = x; }\ndef d : A<1, 2>;\n", "A<1, 2>"),                              // surplus template argument
+    ("class A<int x = 0, int y> { int v = x; int w = y; }\ndef d : A<1>;\n", "A<1>"),                // missing template argument declared AFTER a defaulted one
+    ("class A<int x = 0, int y = 1, int z> { int v = z; }\ndef d : A<>;\n", "A<>"),                  // missing template argument behind two defaulted ones, none given
+    ("class A<int x = 0, int y> { int v = y; }\ndefvar c = A<1>.v;\n", "A<1>"),                      // ... of a class value
+    ("class A<int x>;\nmulticlass M<int p = 0, int q> { def _a : A<q>; }\ndefm m : M<1>;\n", "M<1>"), // ... of a defm
     ("class A<int x> { int v = x; }\ndef d : A<\"s\">;\n", "\"s\""),                              // type-incompatible argument
     ("class A { int v = \"s\"; }\n", "\"s\""),                                                     // type-incompatible initialiser
     ("class A { int v = 1; }\ndef d : A { let v = \"s\"; }\n", "\"s\""),                          // type-incompatible override
